@@ -807,6 +807,17 @@ class ThinWrappers(ast.NodeTransformer):
         return node
 
 
+class WhileTrue(ast.NodeTransformer):
+    """`while cond: body` (no else) -> `while True: if not cond: break; body`, everywhere"""
+
+    def visit_While(self, node):
+        self.generic_visit(node)
+        if node.orelse or (isinstance(node.test, ast.Constant) and node.test.value is True):
+            return node
+        guard = ast.If(test=ast.UnaryOp(op=ast.Not(), operand=node.test), body=[ast.Break()], orelse=[])
+        return ast.While(test=ast.Constant(value=True), body=[guard] + node.body, orelse=[])
+
+
 def _keywordify(repo):
     import os
     from .normalize import signatures, pick_signature
@@ -853,6 +864,10 @@ def equivalent_variants(repo='/repo'):
         t = NamedConditions().visit(ast.parse(src))
         return ast.unparse(ast.fix_missing_locations(t)) + '\n'
 
+    def whiletrue(src):
+        t = WhileTrue().visit(ast.parse(src))
+        return ast.unparse(ast.fix_missing_locations(t)) + '\n'
+
     def thin(src):
         t = ThinWrappers().visit(ast.parse(src))
         return ast.unparse(ast.fix_missing_locations(t)) + '\n'
@@ -893,4 +908,5 @@ def equivalent_variants(repo='/repo'):
             ('every argument after the first passed by keyword in calls of package functions', _keywordify(repo)),
             ('the code after an `if ...: return/raise` moved into an else arm', elseret),
             ('every call / comparison tested by a plain `if` named by a local first', named),
-            ('every generator method split into a non-generator wrapper and a private inner generator', thin)]
+            ('every generator method split into a non-generator wrapper and a private inner generator', thin),
+            ('every `while cond:` loop spelled `while True: if not cond: break`', whiletrue)]
